@@ -12,6 +12,7 @@ _NAMES = {
     'copies': 'container',
     'reindex': 'container',
     'labels': 'container',
+    'pairs': 'container',
     'alias': 'alias',
     'linker': 'linker',
 }
